@@ -4,7 +4,7 @@ LEVEL = "other"
 CONTRACT_MODULES = ["contracts.specfuns", "contracts.lemmas_desc", "contracts.pyramid", "contracts.image", "contracts.merge",
                     "contracts.pyramidio", "contracts.study", "contracts.parallel", "contracts.multitan", "contracts.toastsample",
                     "contracts.toastgeom", "contracts.pyxtext"]
-FUNCTIONS = ["toasty.toast.toast_tile_get_coords", "toasty.toast._div4"]
+FUNCTIONS = ["toasty.toast.toast_tile_get_coords", "toasty.toast._level0_tile_get_coords", "toasty.toast._div4"]
 LEMMAS = ["pyx_subsample_agrees_with_div4"]
 SLOW = ()
 TRUSTED_BASE = ["pyvc VC generator; z3/cvc5", "compiled mid symmetric; the .so corresponds to the .pyx text (cannot be rebuilt offline)",
